@@ -338,6 +338,12 @@ theorem input_digests_standard (p : Package) (a? : Option Bytes) (inp : Input) (
 /-- the two scraped compression tables fit together (re-decided on the tables of the current source) -/
 theorem compressor_tables_agree : TablesAgree := by unfold TablesAgree; decide
 
+/-- as the code is now, a package WITHOUT RPMTAG_PAYLOADCOMPRESSOR has an uncompressed payload: the variant
+`get_payload_compressor` answers then is one `decompress_stream` passes through (both scraped).  The hand-encoded hostile
+packages of the correspondence run rely on it (no tag, plain cpio payload): were it to change, the model could not
+predict them any more (`extractInput … = none`), and this theorem says so instead of the run going quiet -/
+theorem default_compressor_is_identity : payloadIsArchive payloadCompressorDefault = true := by decide
+
 /-- … and their texts are ASCII, so comparing code points is comparing the bytes of the header string -/
 theorem compressor_names_ascii :
     (∀ p ∈ compressionFromStr, ∀ c ∈ p.1, c < 128) ∧ (∀ p ∈ compressionDisplay, ∀ c ∈ p.2, c < 128) := by decide
